@@ -30,6 +30,9 @@ def fixed_schema():
     deep = struct("deep", [nat("m0"), F("m1", T("nat"), m("m0", 2)), F("m2", T("nat"), m("m1", 7)), F("leaf", i32(), m("m2", 31)), F("other", st(), m("m0", 0))])
     for f in deep.constructors[0].fields[1:3]:
         f.role = "mask"
+    struct("sib", [nat("fm"), F("a", i32(), m("fm", 0)), F("flag", T("true", boxed=False), m("fm", 0)), F("other", T("true", boxed=False), m("fm", 4)), F("s", st(), m("fm", 4))])
+    sib2 = struct("sib2", [nat("f1"), F("f2", T("nat"), m("f1", 0)), F("f3", T("true", boxed=False), m("f2", 1)), F("f4", T("true", boxed=False), m("f2", 1)), F("f5", i32(), m("f2", 1))])
+    sib2.constructors[0].fields[1].role = "mask"
     maybes = struct("maybes", [F("m", T("maybe", elem=i32())), F("v", T("maybe", elem=T("vector", elem=i32(), form="bare"))), F("s", T("maybe", elem=st()))])
     sized = struct("sized", [nat("n", "size"), F("xs", i32(), arr=N("field", "n")), F("t", T("tuple", elem=i32(), size=N("const", 3), boxed=False)), F("k", st(), arr=N("const", 2))])
     col = D("enum", "vz", "col", [])
